@@ -130,7 +130,7 @@ def step (s : S) : Label → Option S
     | _ => none
   | .rCtl =>
     match s.rpc with
-    | .poll => some s
+    | .poll => some { s with rpc := .poll }
     | .exec => some { s with rpc := .poll }
     | .native => some { s with rpc := .poll }
     | .raised _ => some { s with rpc := .poll }
